@@ -32,12 +32,16 @@ def check(run):
                 run.inconclusive.append("encoder (%s): %s" % (what, e))
             finally:
                 mod.PANIC_ONLY = False
+    if only in ("", "A"):
+        # the analysis pass's component handlers never panic / fail an assertion (debug ones included) from any event and valid state
+        import analysis
+        analysis.run_for(run, scr, nat, "C03")
     if only in ("", "K"):
         kani_group.run_group(run, scr, registry.select("C03", run.tier))
     run.assumptions += ["kernels are driven from arbitrary valid states / symbolic arguments, not from parsed text"]
     run.not_covered += [
         "lexer, block splitter, step parser, quantity parser, front matter, AST builder (todo!() on front matter), report rendering through codesnake, "
-        "the analysis state machine, serde: everything behind symbolic text is OUTSIDE this claim (DESIGN 6)",
+        "the block state machine of the analysis pass beyond its event loop, metadata / front-matter handling, serde: everything behind symbolic text is OUTSIDE this claim (DESIGN 6)",
         "BlockParser::text with more than one token of symbolic length (CBMC exhausts memory)",
     ]
 
@@ -56,6 +60,9 @@ def replay(run, path):
         return 0 if st == "passed" else 2
     nat = native.Native(scr)
     nat.build()
+    if obj.get("replay") == "structure":
+        import analysis
+        return analysis.replay_structure(nat, "C03", path)
     r = nat.call("group_scenario", *obj["args"]) if obj.get("replay") == "group_scenario" else nat.call("scale_scenario", *obj["args"])
     print("replay:", r)
     if r.get("problems") or "error" in r:
